@@ -6,7 +6,18 @@ _H = (" History: the model is stateless, the implementation a long-lived process
       " permissive or an all-denying environment, with every proof embedded, on a second laxer server sharing the service methods; for time windows"
       " the same tokens validated or served before and after a boundary passes), so that caches and memos that outlive their environment disagree"
       " with the model. Worlds also run with the library's own readers (schema.DIDString, schema.Struct) where the harness has its own.")
+_R = (" Reader combinators: schema.Or / Mapped / Literal are modelled as functions (Model/Readers.lean) with theorems or_first (first accepting member wins),"
+      " or_none_iff, or_some_mem, or_nested_any (a nested union reads like the flat one: a failing nested union is not a verdict) and evalSeq_get (no memory"
+      " between reads); generated reader trees are built once from the library's combinators and read input sequences with repeats (op rdtree). Served worlds"
+      " mount methods built from schema.Or, schema.URI, schema.Struct with converter options and a hand-written ServiceMethod; URL-resource worlds read"
+      " resources through schema.URI.")
 HISTORY_NOTE = {k: _H for k in ("C01", "C02", "C03", "C04", "C05", "C06", "C08", "C09", "C16", "C19")}
+for _k in ("C02", "C06", "C08"):
+    HISTORY_NOTE[_k] += _R
+HISTORY_NOTE["C09"] += (" Fresh-process batches (batchfresh): a worker process is started for the case alone, so that the concurrent validations are the first"
+                        " use of the library in the process (lazily initialised package state), under the race detector.")
+HISTORY_NOTE["C17"] = (" Fresh-process cases (bsfresh): a worker process is started for the case alone; goroutines attach to, iterate and archive one shared"
+                       " delegation as the first thing the process does with the library, under the race detector.")
 
 COMMON_TRUSTED = [
     "Lean 4.33.0 kernel; axioms allowed: propext, Classical.choice, Quot.sound (checked with #print axioms per theorem)",
@@ -47,12 +58,14 @@ PROPS = {
     },
     "C02": {
         "manifest": {"text": "Theorems C02_binds / resolveCap_nb / overlay_get_set / overlay_get_unset: at every step of every returned authorization the capability shown to Derives as 'delegated' carries the overlay of the caveats written in that delegation over the claimed ones (set fields shown, unset inherited) and Derives accepted it; C02_attest: a re-delegated ucan/attest{proof:X} can only attest X. Correspondence on worlds where 60% of delegations carry restricting caveats under three derivation rules; the implementation's returned capabilities (incl. caveats) at each level are re-derived by the chain checker.", "design_ref": '5.2', "note": VALIDATOR_NOTE},
-        "obligations": ob("UcantoModel.Props.C02", "V.C02_binds", "V.rest_binds", "V.resolveCap_nb", "V.overlay_get_set", "V.overlay_get_unset", "V.attest_chain_proof", "V.C02_attest"),
+        "obligations": ob("UcantoModel.Props.C02", "V.C02_binds", "V.rest_binds", "V.resolveCap_nb", "V.overlay_get_set", "V.overlay_get_unset", "V.attest_chain_proof", "V.C02_attest")
+                       + ob("UcantoModel.Props.Readers", "Rd.or_first", "Rd.or_none_iff", "Rd.or_some_mem", "Rd.or_nested_any", "Rd.evalSeq_get"),
         "rule": WORLD_RULE + "; 60% of delegations carry restricting caveats, derivation rules default/eq/le", "trusted_base": VALIDATOR_TRUSTED,
     },
     "C03": {
-        "manifest": {"text": "Theorems isExpired_spec / isTooEarly_spec (exactly exp <= now, resp. nbf set and now <= nbf), C03_noexp, C03_inside (strictly inside the window is never rejected for time reasons, by either predicate), C03_no_spurious (validate never answers expired/too-early for an in-window token), C03_window (every delegation of a returned authorization, at any depth, is inside its window at the validation second) and C03_attestation_window (so is every delegation of an accepted session attestation). Correspondence without a clock hook: each case fixes one position (invocation, proof at any depth, attestation) to one of the 6x6 boundary combinations relative to the wall-clock second T read just before validation; the sample is kept only if the clock still reads T afterwards; the model is evaluated with now = T.", "design_ref": "5.3", "note": VALIDATOR_NOTE + "; wall clock: a sample is discarded when the second ticks during validation"},
-        "obligations": ob("UcantoModel.Props.C03", "V.isExpired_spec", "V.isTooEarly_spec", "V.C03_noexp", "V.C03_inside", "V.C03_no_spurious", "V.C03_window", "V.C03_attestation_window"),
+        "manifest": {"text": "Theorems isExpired_spec / isTooEarly_spec (exactly exp <= now, resp. nbf set and now <= nbf), C03_noexp, C03_inside (strictly inside the window is never rejected for time reasons, by either predicate), C03_no_spurious (validate never answers expired/too-early for an in-window token), C03_window (every delegation of a returned authorization, at any depth, is inside its window at the validation second) and C03_attestation_window (so is every delegation of an accepted session attestation); over time: C03_expired_mono, C03_tooEarly_anti, C03_window_convex (the seconds at which a token is in its window form an interval) and C03_window_exact (exactly nbf < now < exp). Correspondence without a clock hook: each case fixes one position (invocation, proof at any depth, attestation) to one of the 6x6 boundary combinations relative to the wall-clock second T read just before validation; the sample is kept only if the clock still reads T afterwards; the model is evaluated with now = T.", "design_ref": "5.3", "note": VALIDATOR_NOTE + "; wall clock: a sample is discarded when the second ticks during validation"},
+        "obligations": ob("UcantoModel.Props.C03", "V.isExpired_spec", "V.isTooEarly_spec", "V.C03_noexp", "V.C03_inside", "V.C03_no_spurious", "V.C03_window", "V.C03_attestation_window",
+                          "V.C03_expired_mono", "V.C03_tooEarly_anti", "V.C03_window_convex", "V.C03_window_exact"),
         "rule": "valid worlds (depth 0-4, half with a session); one position x expiration in {none, far past, T-1, T, T+1, far} x not-before in {unset, far past, T-1, T, T+1, far}, T = wall-clock second of validation (bracketed). every case is non-trivial; distinct: hash of the concrete world", "trusted_base": VALIDATOR_TRUSTED,
     },
     "C04": {
@@ -70,7 +83,8 @@ PROPS = {
         "obligations": ob("UcantoModel.Props.C06", "V.C06_complete", "V.C06_never_refused", "V.C06_valid", "V.C06_fuel_independent", "V.complete_all")
                        + ob("UcantoModel.Lemmas.Stable", "V.stable", "V.claim_deterministic")
                        + ob("UcantoModel.Props.Termination", "V.terminates_all", "V.access_terminates", "V.C06_found")
-                       + ob("UcantoModel.Props.Examples", "Examples.good_authorized", "Examples.good_has_chain", "Examples.good_wf", "Examples.good_fuel"),
+                       + ob("UcantoModel.Props.Examples", "Examples.good_authorized", "Examples.good_has_chain", "Examples.good_wf", "Examples.good_fuel")
+                       + ob("UcantoModel.Props.Readers", "Rd.or_first", "Rd.or_none_iff", "Rd.or_some_mem", "Rd.or_nested_any", "Rd.evalSeq_get"),
         "rule": WORLD_RULE, "trusted_base": VALIDATOR_TRUSTED,
     },
     "C07": {
@@ -84,7 +98,8 @@ PROPS = {
     "C08": {
         "manifest": {"text": "Theorems on the model of server.Run + Provide: C08_iff (the handler runs iff the invocation has exactly one capability, a method is registered for its ability and Access authorizes it; it receives the authorized capability), C08_at_most_once, C08_args (that capability is the invocation's own capability as parsed by the method's descriptor), C08_unauthorized, C08_capability_count, C08_not_found (the three refusal receipts, nothing runs), C08_only_authorized (behind every call there is a complete valid chain, by C01). Correspondence through the real server: client.Execute of batches of 1-4 invocations (shared proofs, unhandled abilities, zero/two capabilities, strangers) against recording handlers returning ok / ok+effects / error, with can-issue policy, revocation checker, proof and key resolvers set through the server options; compared: receipt outcome per invocation and the exact handler call log.", "design_ref": "5.8", "note": VALIDATOR_NOTE},
         "obligations": ob("UcantoModel.Props.C08", "Srv.C08_iff", "Srv.C08_at_most_once", "Srv.C08_args", "Srv.C08_unauthorized", "Srv.C08_capability_count", "Srv.C08_not_found", "Srv.C08_only_authorized")
-                       + ob("UcantoModel.Props.Examples", "Examples.good_handler_runs"),
+                       + ob("UcantoModel.Props.Examples", "Examples.good_handler_runs")
+                       + ob("UcantoModel.Props.Readers", "Rd.or_first", "Rd.or_none_iff", "Rd.or_some_mem", "Rd.or_nested_any", "Rd.evalSeq_get"),
         "mismatch_is_violation": True,
         "rule": WORLD_RULE + "; each world becomes a request of 1-4 invocations against a server with 1-2 recording service methods", "trusted_base": VALIDATOR_TRUSTED,
         "assumptions": ["a model/implementation difference in receipt outcome or handler call log is itself a failing input: the model's run is proved to satisfy the property's iff"],
